@@ -68,7 +68,7 @@
  "name": "ht_expand_dir_full",
  "props": ["C10"],
  "level": "P",
- "tier": "wip",
+ "tier": "quick",
  "harness": "h_expand",
  "defines": ["EXT2_CUSTOM_MEMORY_ROUTINES"],
  "unwind": 6,
